@@ -5,7 +5,12 @@ use serde_json::{json, Value};
 
 const LAST_DAY: u64 = 2_932_896; // 9999-12-31
 
-fn check_date(ctx: &mut Ctx, ts: u64, family: &'static str) {
+fn check_date(ctx: &mut Ctx, ts: u64, family: &'static str) { check_date_after(ctx, None, ts, family) }
+
+/// `primer`: an instant rendered right before (history of two calls).  A formatter is a function of its argument: what it was
+/// asked before - a later instant, as when a clock steps back or an older date is rendered after a newer one - must not matter.
+fn check_date_after(ctx: &mut Ctx, primer: Option<u64>, ts: u64, family: &'static str) {
+    if let Some(p) = primer { let _ = guarded(|| ohkami_lib::imf_fixdate(p)); }
     let expected = civil::imf_fixdate(ts);
     match guarded(|| ohkami_lib::imf_fixdate(ts)) {
         Ok(got) if got == expected => ctx.pass("date-ok", true, ts % 86_400 != 0 && ts >= 86_400),
@@ -13,10 +18,10 @@ fn check_date(ctx: &mut Ctx, ts: u64, family: &'static str) {
             let feature = if got.get(..3) != expected.get(..3) { "weekday" }
                 else if got.get(5..16) != expected.get(5..16) { "date" } else { "time" };
             ctx.violation(&format!("C20/imf_fixdate/{family}/wrong-{feature}"), true,
-                || json!({"fn": "imf_fixdate", "input": ts, "expected": expected, "observed": got}))
+                || json!({"fn": "imf_fixdate", "input": ts, "rendered_before": primer, "expected": expected, "observed": got}))
         }
         Err(p) => ctx.violation(&format!("C20/imf_fixdate/{family}/panic:{}", panic_kind(&p)), true,
-            || json!({"fn": "imf_fixdate", "input": ts, "expected": expected, "observed": format!("panic: {p}")})),
+            || json!({"fn": "imf_fixdate", "input": ts, "rendered_before": primer, "expected": expected, "observed": format!("panic: {p}")})),
     }
 }
 
@@ -100,6 +105,26 @@ pub fn run(ctx: &mut Ctx) {
             }
         }
     }
+    // (3) histories of two calls: every day at a second of the day, right after a *later* instant was rendered (1 s .. 1 year later,
+    //     rotating), and every second of one day in descending order
+    const LATER: [u64; 8] = [1, 59, 60, 61, 3_599, 3_600, 86_400, 31_536_000];
+    let mut d0 = 0;
+    while d0 <= LAST_DAY {
+        if ctx.mine() {
+            for d in d0..(d0 + day_chunk).min(LAST_DAY + 1) {
+                let ts = d * 86_400 + (d * 7_919) % 86_400;
+                let later = (ts + LATER[(d % 8) as usize]).min(LAST_DAY * 86_400 + 86_399);
+                check_date_after(ctx, Some(later), ts, "after-later-instant");
+            }
+        }
+        d0 += day_chunk;
+    }
+    for half in 0..2u64 {
+        if ctx.mine() {
+            let d = 19_003u64;
+            for s in ((half * 43_200)..((half + 1) * 43_200)).rev() { check_date_after(ctx, Some(d * 86_400 + s + 1), d * 86_400 + s, "every-second-descending"); }
+        }
+    }
     ctx.sample(|| json!({"fn": "imf_fixdate", "input": 951_782_400u64, "observed": ohkami_lib::imf_fixdate(951_782_400)}));
 
     /* ---- itoa ---- */
@@ -152,7 +177,7 @@ pub fn run(ctx: &mut Ctx) {
 pub fn replay(ctx: &mut Ctx, case: &Value) {
     let n = case["input"].as_u64().expect("input");
     match case["fn"].as_str().unwrap_or("") {
-        "imf_fixdate" => check_date(ctx, n, "replay"),
+        "imf_fixdate" => check_date_after(ctx, case["rendered_before"].as_u64(), n, "replay"),
         "itoa" => check_itoa(ctx, n as usize, "replay"),
         "hexized" => check_hex(ctx, n as usize, "replay"),
         other => ctx.machinery_error(format!("unknown fn {other}")),
